@@ -2358,26 +2358,37 @@ impl Write for SummaryStream {
 
         /*
          * Look for the last complete pkg_summary(5) record, if there are none
-         * then go to the next input.
+         * then go to the next input.  Search the raw bytes so that input
+         * ending part-way through a multi-byte character is simply left in
+         * the buffer for next time.
          */
-        let input_string = match std::str::from_utf8(&self.buf) {
-            Ok(s) => {
-                if let Some(last) = s.rfind("\n\n") {
-                    s.get(0..last + 2).unwrap()
-                } else {
-                    return Ok(input.len());
-                }
-            }
-            Err(e) => {
-                return Err(io::Error::new(io::ErrorKind::InvalidData, e))
-            }
+        let complete = match self.buf.windows(2).rposition(|w| w == b"\n\n") {
+            Some(last) => self.buf[0..last + 2].to_vec(),
+            None => return Ok(input.len()),
         };
 
         /*
-         * We have at least one complete record, parse it and add to the vector
-         * of summary entries.
+         * We have at least one complete record, parse each in turn (so that
+         * a bad record does not lose the valid ones before it) and add to
+         * the vector of summary entries.
          */
-        for sum_entry in input_string.split_terminator("\n\n") {
+        let mut records: Vec<&[u8]> = vec![];
+        let mut start = 0;
+        while start < complete.len() {
+            let end = complete[start..]
+                .windows(2)
+                .position(|w| w == b"\n\n")
+                .map_or(complete.len(), |p| start + p);
+            records.push(&complete[start..end]);
+            start = end + 2;
+        }
+        for sum_entry in records {
+            let sum_entry = match std::str::from_utf8(sum_entry) {
+                Ok(s) => s,
+                Err(e) => {
+                    return Err(io::Error::new(io::ErrorKind::InvalidData, e))
+                }
+            };
             let sum = match Summary::from_str(sum_entry) {
                 Ok(s) => s,
                 Err(e) => {
@@ -2393,7 +2404,7 @@ impl Write for SummaryStream {
          * up having to do something with the existing data.  This seems to be
          * the best way to do it for now?
          */
-        let slen = input_string.len();
+        let slen = complete.len();
         self.buf = self.buf.split_off(slen);
 
         Ok(input.len())
